@@ -208,9 +208,11 @@ class SimWBEMServer:
         if isinstance(obj, CIMClass):
             return X.VALUE(obj.tocimxml().toxml())
         if isinstance(obj, list):
-            if obj and isinstance(obj[0], (CIMClassName, CIMInstanceName)):
-                return X.VALUE_REFARRAY(
-                    [SimWBEMServer.value_node(x) for x in obj])
+            if any(isinstance(x, (CIMClassName, CIMInstanceName))
+                   for x in obj):
+                return X.VALUE_REFARRAY([
+                    X.VALUE_NULL() if x is None
+                    else SimWBEMServer.value_node(x) for x in obj])
             return X.VALUE_ARRAY([
                 X.VALUE_NULL() if x is None else SimWBEMServer.value_node(x)
                 for x in obj])
@@ -235,8 +237,11 @@ class SimWBEMServer:
 
     @staticmethod
     def embedded_of(obj):
-        if isinstance(obj, list) and obj:
-            return SimWBEMServer.embedded_of(obj[0])
+        if isinstance(obj, list):
+            for x in obj:
+                if x is not None:
+                    return SimWBEMServer.embedded_of(x)
+            return None
         if isinstance(obj, CIMClass):
             return 'object'
         if isinstance(obj, CIMInstance):
